@@ -79,6 +79,10 @@ class Monitor:
         self.tape_seq = 0
         self.record_reads = False
         self.record_dispatch = False
+        # (max_items, max_item_size, callstack_limit) the CALLER configured;
+        # when set, the hooks judge against these and not against whatever
+        # the Stack / Tape objects were constructed with
+        self.configured = None
 
     def step(self) -> None:
         self.steps += 1
@@ -108,6 +112,8 @@ def make_classes():
                 return
             mon.appends += 1
             max_items, max_size = self.limits
+            if mon.configured is not None:
+                max_items, max_size = mon.configured[:2]
             if type(item) is not bytes:
                 mon.problem('stack-item-not-bytes',
                             f'{op} stored a {type(item).__name__}')
@@ -131,9 +137,11 @@ def make_classes():
                 n = len(self)
                 if n > mon.max_stack_len:
                     mon.max_stack_len = n
-                if self.limits[0] is not None and n > self.limits[0]:
+                lim = self.limits[0] if mon.configured is None \
+                    else mon.configured[0]
+                if lim is not None and n > lim:
                     mon.problem('stack-over-max-items',
-                                f'len {n} > max_items {self.limits[0]}')
+                                f'len {n} > max_items {lim}')
 
         def appendleft(self, item):
             mon = _current
@@ -419,7 +427,8 @@ def _install_frames(functions, mon: Monitor, saved) -> None:
         def op(tape, stack, cache):
             # an activation counts once it hands its callee to run_tape (the
             # op's own limit check may still refuse it before that)
-            mark = [False, kind, tape.callstack_limit]
+            mark = [False, kind, tape.callstack_limit
+                    if mon.configured is None else mon.configured[2]]
             mon.chain_marks.append(mark)
             try:
                 return orig(tape, stack, cache)
@@ -432,7 +441,9 @@ def _install_frames(functions, mon: Monitor, saved) -> None:
         return op
 
     def op_loop(tape, stack, cache):
-        mon.loop_stack.append([None, 0, tape.callstack_limit])
+        mon.loop_stack.append([None, 0, tape.callstack_limit
+                               if mon.configured is None
+                               else mon.configured[2]])
         try:
             return orig_loop(tape, stack, cache)
         finally:
